@@ -116,7 +116,8 @@ def dijkstra_edges(
         adj[u].append((v, w))
 
     if target is not None:
-        return dijkstra(source, target, lambda s: adj[s])
+        # at most one pop per pushed edge, so this budget never truncates the search
+        return dijkstra(source, target, lambda s: adj[s], max_iter=max(1_000_000, n_nodes + len(edges) + 1))
 
     # All-distances mode: minimal Dijkstra to collect distances
     dist: dict[int, float] = {source: 0.0}
